@@ -142,12 +142,17 @@ def readPrefixedInt (s : St) (p : Nat) : Out (Nat × Nat) :=
   | .panic => .panic
   | .hang => .hang
 
-/-- `readPrefixedStringWithByte(firstByte, prefixLen)`. Records the `make([]byte, size)`. -/
+/-- `readPrefixedStringWithByte(firstByte, prefixLen)`.
+The repaired code reads the literal with `io.ReadAll(io.LimitReader(st, size))` and rejects a short
+result; on this stream model that consumes the same bytes and succeeds/fails exactly like
+`io.ReadFull` (`readFull`). What changed is the allocation: the buffer starts at 512 bytes and grows
+only when full, so its capacity is at most `2 * (bytes obtained) + 512`; that bound is what `allocs`
+records (together with the bytes of the stream not yet consumed). -/
 def readPrefixedStringWithByte (H : Huff) (s : St) (first p : Nat) : Out (List Nat) :=
   match readPrefixedIntWithByte s first p with
   | .ok size s1 =>
     if s1.lim ≥ 0 ∧ (size : Int) > s1.lim then .err qpackErr s1 else
-    let s2 := { s1 with allocs := (size, s1.data.length) :: s1.allocs }
+    let s2 := { s1 with allocs := (2 * min size s1.data.length + 512, s1.data.length) :: s1.allocs }
     (match readFull s2 size with
      | .ok data s3 =>
        if first / 2 ^ p % 2 = 1 then
